@@ -76,3 +76,17 @@ def abnormal(r):
     if o is None or "harness_error" in o or "panic" in o:
         return f"rc={r['rc']} {str(o)[:300]} {r['tail'][-300:]}"
     return None
+
+
+def confirmed(binary, item, monitor, sig, tag, tries=2):
+    """A failure of a node-level scenario seen in the parallel run is reported only if the same signature shows again when
+    the scenario runs alone. (Besides load, there is the known defect F1103 - a new per-peer socket is bound to the
+    node's port before it is connected and can take another peer's datagram in between - which makes a request go
+    unanswered about once in a hundred peers set up at the same time; C11 owns that finding.) -> (still failing?, run)"""
+    last = None
+    for k in range(tries):
+        r = run_one(binary, item["sc"], 900 + k, tag + "again")
+        last = r
+        if any(s2 == sig for s2, _ in monitor(item, r)):
+            return True, r
+    return False, last
